@@ -93,6 +93,10 @@ def prepare(crates, prop, tier, seed):
             res["slices"].update(slicer.write_slices(os.path.join(VERIF, "kani", "e4", "gen"), e4_rehost()))
             gen_e4.build_native()
             res["generated"] = gen_e4.generate_e4(tier)
+        if "e3" in crates:
+            import gen_e3
+            gen_e4.build_native()
+            res["generated"], _ = gen_e3.generate_e3(tier)
     except SliceError as e:
         res["error"] = str(e)
     except gen_e4.GenError as e:
